@@ -9,8 +9,11 @@ import (
 	"crypto/tls"
 	"crypto/x509"
 	"crypto/x509/pkix"
+	"encoding/pem"
+	"fmt"
 	"math/big"
 	"net"
+	"os"
 	"sync"
 	"time"
 )
@@ -25,6 +28,8 @@ type TLSMat struct {
 	Untrusted tls.Certificate
 	// OnlyLocalhost is issued by the trusted CA for the DNS name "localhost" and nothing else
 	OnlyLocalhost tls.Certificate
+	CA            *x509.Certificate // the trusted root
+	Leaf          *x509.Certificate // parsed Good leaf
 }
 
 var (
@@ -66,13 +71,50 @@ func TLS() *TLSMat {
 		bad, badk := mkCA("verif untrusted root")
 		m := &TLSMat{Roots: x509.NewCertPool()}
 		m.Roots.AddCert(ca)
+		m.CA = ca
 		m.Good = leaf(ca, cak, TLSHosts, TLSIPs, 101)
+		m.Leaf, _ = x509.ParseCertificate(m.Good.Certificate[0])
 		m.WrongName = leaf(ca, cak, []string{"other.invalid"}, nil, 102)
 		m.Untrusted = leaf(bad, badk, TLSHosts, TLSIPs, 103)
 		m.OnlyLocalhost = leaf(ca, cak, []string{"localhost"}, nil, 104)
 		tlsMat = m
 	})
 	return tlsMat
+}
+
+var sysRootOnce sync.Once
+
+// TrustHarnessCAAsSystemRoot makes the harness CA the process's system root store (SSL_CERT_FILE, read once by
+// crypto/x509 when the system roots are first needed), for library entry points that give the caller no way to hand
+// in a tls.Config (QuickSend). Must run before anything verifies a chain against the system roots.
+func TrustHarnessCAAsSystemRoot() error {
+	var err error
+	sysRootOnce.Do(func() {
+		m := TLS()
+		f, e := os.CreateTemp("", "verif-ca-*.pem")
+		if e != nil {
+			err = e
+			return
+		}
+		defer os.Remove(f.Name())
+		_ = pem.Encode(f, &pem.Block{Type: "CERTIFICATE", Bytes: m.CA.Raw})
+		_ = f.Close()
+		d, e := os.MkdirTemp("", "verif-cadir-*")
+		if e == nil {
+			defer os.RemoveAll(d)
+			_ = os.Setenv("SSL_CERT_DIR", d)
+		}
+		_ = os.Setenv("SSL_CERT_FILE", f.Name())
+		pool, e := x509.SystemCertPool() // forces the one-time load
+		if e != nil {
+			err = e
+			return
+		}
+		if _, e := m.Leaf.Verify(x509.VerifyOptions{Roots: pool, DNSName: "localhost"}); e != nil {
+			err = fmt.Errorf("harness CA is not in the system pool: %w", e)
+		}
+	})
+	return err
 }
 
 // ServerTLS returns a server config presenting cert, limited to the given versions (0 = default).
